@@ -59,6 +59,35 @@ func quoteTsh(s string, raw bool) string {
 	return b.String()
 }
 
+// quoteTshEscaped spells bytes as byte escapes (see StrLit.Esc).
+func quoteTshEscaped(s string, mode int) string {
+	var b strings.Builder
+	b.WriteByte('"')
+	for i := 0; i < len(s); i++ {
+		c := s[i]
+		switch {
+		case mode == 3 || (c >= 0x80 && mode == 1):
+			fmt.Fprintf(&b, "\\x%02x", c)
+		case c >= 0x80 && mode == 2:
+			fmt.Fprintf(&b, "\\%03o", c)
+		case c == '"':
+			b.WriteString(`\"`)
+		case c == '\\':
+			b.WriteString(`\\`)
+		case c == '\n':
+			b.WriteString(`\n`)
+		case c == '\t':
+			b.WriteString(`\t`)
+		case c == '\r':
+			b.WriteString(`\r`)
+		default:
+			b.WriteByte(c)
+		}
+	}
+	b.WriteByte('"')
+	return b.String()
+}
+
 func renderExpr(e Expr) string {
 	switch x := e.(type) {
 	case IntLit:
@@ -71,6 +100,9 @@ func renderExpr(e Expr) string {
 		}
 		return "false"
 	case StrLit:
+		if x.Esc != 0 && !x.Raw {
+			return quoteTshEscaped(x.V, x.Esc)
+		}
 		return quoteTsh(x.V, x.Raw)
 	case NilLit:
 		return "nil"
